@@ -11,11 +11,11 @@ namespace vf {
 #undef VF_GEN_DESCRIBE
 
 #define VF_MEMBER(N) s += #N "="; put(s, x.N); s += ';';
-#define VF_STRUCT_DEF(Q, BODY) inline void put(std::string& s, const Q& x) { (void)x; s += '{'; BODY s += '}'; }
+#define VF_STRUCT_DEF(Q, BODY) void put(std::string& s, const Q& x) { (void)x; s += '{'; BODY s += '}'; }
 #define VF_GEN_STRUCT_DEFS
 #include "gen_tins.inc"
 #undef VF_GEN_STRUCT_DEFS
-#define VF_CLASS_PUT(Q, FN) inline void put(std::string& s, const Q& x) { View v2; v2.strict_exceptions = false; FN(x, v2); s += '{'; for (auto& p : v2.kv) { s += p.first; s += '='; s += p.second; s += ';'; } s += '}'; }
+#define VF_CLASS_PUT(Q, FN) void put(std::string& s, const Q& x) { View v2; v2.strict_exceptions = false; FN(x, v2); s += '{'; for (auto& p : v2.kv) { s += p.first; s += '='; s += p.second; s += ';'; } s += '}'; }
 #define VF_GEN_CLASS_PUT
 #include "gen_tins.inc"
 #undef VF_GEN_CLASS_PUT
